@@ -1,6 +1,9 @@
 use std::io::{Cursor, Read};
 use byteorder::{ReadBytesExt, BigEndian};
+#[cfg(not(mila_verif))]
 use indexmap::IndexMap;
+#[cfg(mila_verif)]
+use crate::verif_support::IndexMap;
 use crate::encoded_strings::{EncodedStringReader, to_shift_jis};
 
 type Result<T> = std::result::Result<T, crate::ArchiveError>;
